@@ -950,7 +950,7 @@ pub fn contract_generate_constructed<C: Ctx>(cx: &mut C) {
         let nested_recursive = nested && n <= 2 && cx.any_bool();   // the linker marked the anonymous component as recursive
         // the component that carries the anonymous type may have a name that needs mangling (Rust keyword, hyphen)
         //   (varied only for single-component types, to keep the product small)
-        let first_name = if nested && n == 1 { ["f0", "struct", "my-field", "type"][cx.choose(4)] } else { "f0" };
+        let first_name = if nested && n == 1 { ["f0", "struct", "my-field", "type", "self", "stationID"][cx.choose(6)] } else { "f0" };
         let ty = if nested {
             let inner = ASN1Type::Sequence(SequenceOrSet { components_of: vec![], extensible: None, constraints: vec![], members: vec![SequenceOrSetMember { name: "x".into(), tag: None, ty: ASN1Type::Boolean(Boolean { constraints: vec![] }), optionality: Optionality::Required, is_recursive: false, constraints: vec![] }] });
             match ty {
@@ -1424,23 +1424,25 @@ pub fn contract_generate_component_types<C: Ctx>(cx: &mut C) {
         ];
         let row = cx.choose(table.len());
         let (asn_name, ty, rust_ty, default_value) = table[row].clone();
-        let position = cx.choose(4); // 0 SEQUENCE, 1 SET, 2 CHOICE, 3 element of a SEQUENCE OF component
+        let position = cx.choose(5); // 0 SEQUENCE, 1 SET, 2 CHOICE, 3 element of a SEQUENCE OF component, 4 element of a SET OF component
         let opt = cx.choose(3);      // 0 required, 1 OPTIONAL, 2 DEFAULT
         if !cx.assume(opt != 2 || default_value.is_some()) { return; }
         if !cx.assume(position != 2 || opt == 0) { return; }
         const TYPE_NAMES: [(&str, &str); 3] = [("T", "T"), ("PDU-Header", "PDUHeader"), ("X-info", "XInfo")];
         let (asn_type_name, rust_type_name) = TYPE_NAMES[cx.choose(3)];
-        let member_ty = if position == 3 { ASN1Type::SequenceOf(SequenceOrSetOf { constraints: vec![], element_type: Box::new(ty.clone()), element_tag: None, is_recursive: false }) } else { ty.clone() };
-        let optionality = match opt { 0 => Optionality::Required, 1 => Optionality::Optional, _ => Optionality::Default(default_value.clone().unwrap()) };
+        let coll = SequenceOrSetOf { constraints: vec![], element_type: Box::new(ty.clone()), element_tag: None, is_recursive: false };
+        let member_ty = if position == 3 { ASN1Type::SequenceOf(coll) } else if position == 4 { ASN1Type::SetOf(coll) } else { ty.clone() };
+        // the DEFAULT of a collection component is a list value `{ v }`
+        let optionality = match opt { 0 => Optionality::Required, 1 => Optionality::Optional, _ => Optionality::Default(if position >= 3 { ASN1Value::LinkedArrayLikeValue(vec![Box::new(default_value.clone().unwrap())]) } else { default_value.clone().unwrap() }) };
         // the linker's "recursive" mark: only meaningful for references (and, below, anonymous nested types)
-        let recursive = asn_name == "reference" && position != 3 && cx.any_bool();
+        let recursive = asn_name == "reference" && position < 3 && cx.any_bool();
         let outer = if position == 2 {
             ASN1Type::Choice(Choice { extensible: None, constraints: vec![], options: vec![ChoiceOption { name: "f0".into(), tag: None, ty: member_ty, constraints: vec![], is_recursive: recursive }] })
         } else {
             let s = SequenceOrSet { components_of: vec![], extensible: None, constraints: vec![], members: vec![SequenceOrSetMember { name: "f0".into(), tag: None, ty: member_ty, optionality, is_recursive: recursive, constraints: vec![] }] };
             if position == 1 { ASN1Type::Set(s) } else { ASN1Type::Sequence(s) }
         };
-        cx.describe(|| format!("{asn_type_name} ::= {} {{ f0 {}{asn_name}{} }}", ["SEQUENCE", "SET", "CHOICE", "SEQUENCE"][position], if position == 3 { "SEQUENCE OF " } else { "" }, ["", " OPTIONAL", " DEFAULT <value>"][opt]) + if recursive { " (component marked recursive)" } else { "" });
+        cx.describe(|| format!("{asn_type_name} ::= {} {{ f0 {}{asn_name}{} }}", ["SEQUENCE", "SET", "CHOICE", "SEQUENCE", "SEQUENCE"][position], if position == 3 { "SEQUENCE OF " } else if position == 4 { "SET OF " } else { "" }, ["", " OPTIONAL", " DEFAULT <value>"][opt]) + if recursive { " (component marked recursive)" } else { "" });
         let h = Rc::new(RefCell::new(ModuleHeader { name: "M".into(), module_identifier: None, encoding_reference_default: None, tagging_environment: TaggingEnvironment::Automatic, extensibility_environment: ExtensibilityEnvironment::Explicit, imports: vec![], exports: None }));
         let tld = ToplevelDefinition::Type(ToplevelTypeDefinition { comments: String::new(), tag: None, name: asn_type_name.into(), ty: outer, parameterization: None, module_header: Some(h) });
         let mut backend = crate::generator::rasn::Rasn::default();
@@ -1448,7 +1450,7 @@ pub fn contract_generate_component_types<C: Ctx>(cx: &mut C) {
         let Some((_, fields)) = item_of(&generated, rust_type_name) else { vob!(cx, "C02.generate.component_is_generated", false); return; };
         if fields.len() != 1 { vob!(cx, "C02.generate.component_is_generated", false); return; }
         let f = &fields[0];
-        let base = if position == 3 { format!("SequenceOf < {rust_ty} >") } else if recursive { format!("Box < {rust_ty} >") } else { rust_ty.to_string() };
+        let base = if position == 3 { format!("SequenceOf < {rust_ty} >") } else if position == 4 { format!("SetOf < {rust_ty} >") } else if recursive { format!("Box < {rust_ty} >") } else { rust_ty.to_string() };
         let want_ty = if opt == 1 { format!("Option < {base} >") } else { base };
         let got_ty = if position == 2 { { let t = f.rsplit("f0 (").next().unwrap_or("").trim(); t.strip_suffix(')').unwrap_or(t).trim().to_string() } } else { f.rsplit("pub f0 :").next().unwrap_or("").trim().to_string() };
         vob!(cx, "C02.generate.component_rust_type_corresponds_to_the_asn1_type", got_ty == want_ty);
@@ -1456,6 +1458,8 @@ pub fn contract_generate_component_types<C: Ctx>(cx: &mut C) {
             // the function named by the default annotation must exist in the generated module
             let named = f.split("default = \"").nth(1).and_then(|r| r.split('"').next()).unwrap_or("");
             vob!(cx, "C02.generate.default_component_names_an_existing_default_function", !named.is_empty() && generated.contains(&format!("fn {named} (")));
+            // ... and return the type of the component it is the default of
+            vob!(cx, "C02.generate.default_function_returns_the_type_of_the_component", generated.contains(&format!("fn {named} () -> {got_ty} {{")));
         } else {
             vob!(cx, "C02.generate.no_default_annotation_without_default", !f.contains("default ="));
         }
@@ -2566,8 +2570,12 @@ pub fn contract_value_rendering<C: Ctx>(cx: &mut C) {
 pub fn contract_pipeline_value_assignments<C: Ctx>(cx: &mut C) {
     #[cfg(not(kani))]
     {
-        let kind = cx.choose(13);
+        let kind = cx.choose(14);
         let (decl, want): (String, String) = match kind {
+            // a value of a NAMED collection type with a builtin element: the element type is hoisted as `Anonymous<Name>`
+            13 => { let set = cx.any_bool(); let name = if set { "NamedSet" } else { "NamedSeq" };
+                    (format!("{name} ::= {} OF INTEGER v {name} ::= {{ 1, 2 }}", if set { "SET" } else { "SEQUENCE" }),
+                     if set { format!("{name} (SetOf :: from_vec (alloc :: vec ! [Anonymous{name} (Integer :: from (1i128)) , Anonymous{name} (Integer :: from (2i128))]))") } else { format!("{name} (alloc :: vec ! [Anonymous{name} (Integer :: from (1i128)) , Anonymous{name} (Integer :: from (2i128))])") }) }
             10 => { let alt = cx.choose(2); let n = [0i128, 5, -7][cx.choose(3)];
                     (format!("Ch ::= CHOICE {{ num INTEGER, flag BOOLEAN }} v Ch ::= {}", if alt == 0 { format!("num:{n}") } else { "flag:TRUE".to_string() }),
                      if alt == 0 { format!("Ch :: num (Integer :: from ({}i128))", if n < 0 { format!("- {}", -n) } else { n.to_string() }) } else { "Ch :: flag (true)".to_string() }) }
@@ -2596,6 +2604,7 @@ pub fn contract_pipeline_value_assignments<C: Ctx>(cx: &mut C) {
         let src = format!("M DEFINITIONS AUTOMATIC TAGS ::= BEGIN {decl} END");
         cx.describe(|| decl.clone());
         match crate::Compiler::<crate::generator::rasn::Rasn, _>::new().add_asn_literal(&src).compile_to_string() {
+            Ok(res) if kind == 13 => { vob!(cx, "C07.pipeline.value_of_a_named_collection_type_is_built_from_its_element_type", res.warnings.is_empty() && res.generated.contains(&want)); }
             Ok(res) => { vob!(cx, "C07.pipeline.value_assignment_denotes_the_source_value", res.warnings.is_empty() && res.generated.contains(&want)); }
             Err(_) => { vob!(cx, "C07.pipeline.value_assignment_compiles", false); }
         }
